@@ -8,9 +8,10 @@ git diff -- gunicorn > /tmp/seed-$NAME.diff
 [ -s /tmp/seed-$NAME.diff ] || { echo "no source change"; exit 2; }
 T=$(/venv/bin/python -m pytest -q -p no:cacheprovider 2>&1 | tail -1); rm -f coverage.xml
 PYTHONPATH="$WT" timeout 300 /venv/bin/python demo_seed.py > /tmp/seed-$NAME.with.txt 2>&1; W=$?
-git stash -q -- gunicorn
+# (git stash is shared by all worktrees of a repository: revert and re-apply the patch instead)
+git apply -R /tmp/seed-$NAME.diff
 PYTHONPATH="$WT" timeout 300 /venv/bin/python demo_seed.py > /tmp/seed-$NAME.without.txt 2>&1; WO=$?
-git stash pop -q
+git apply /tmp/seed-$NAME.diff
 echo "tests: $T | demo with change: exit $W | without: exit $WO"
 mkdir -p "$HERE/seeded/$NAME"
 cp /tmp/seed-$NAME.diff "$HERE/seeded/$NAME/patch.diff"; cp demo_seed.py "$HERE/seeded/$NAME/demo_seed.py"
